@@ -3,39 +3,43 @@ from vq.meta import _m
 _m(
     "C07",
     "exploration",
-    "Hypothesis draws three kinds of case.  radon: square size N in 4..48 (parity drawn explicitly, small sizes favoured), "
-    "1..12 angles in [0,180] (0/90/180/45/135/1/89/91/179 mixed with arbitrary floats, repeats allowed) held in a float32 or "
-    "float64 tensor, batch of 1..3 float32 images (Gaussian mixtures | sums of rectangles | white noise | 1-3 single-pixel "
-    "impulses placed anywhere in the disc or on its rim/next to the centre; amplitude 1e-3/1/1e3; all multiplied by the "
-    "scikit-image disc mask), plus a partner image and two coefficients for linearity.  iradon: same N/angles/batch, filter in "
-    "ramp/shepp-logan/cosine/hamming/hann/None, circle True (4 in 5) or False, float32 sinograms (white noise | scikit-image "
-    "radon of a generated image | 1-3 impulses incl. first/last/centre detector bins | all ones), plus a partner sinogram and "
-    "coefficients.  filter: even size 4..256 (powers of two favoured) x filter name.  A radon/iradon case is NON-TRIVIAL when N "
-    "is even, or some angle is not in {0,90,180}, or some image/sinogram is not (the radon of) a smooth image; a filter case is "
-    "non-trivial when the filter is not None.  distinct = SHA-1 of the canonical JSON of the whole case.",
+    "Three kinds of case.  filter: ALL even sizes 4..256 x {ramp, shepp-logan, cosine, hamming, hann, None} are enumerated "
+    "(762 cases, every run).  radon (Hypothesis): square size N in 4..48 (parity drawn explicitly, small sizes favoured), 1..12 "
+    "angles in [0,180] (0/90/180/45/135/1/89/91/179 mixed with arbitrary floats, repeats allowed) held in a float32 or float64 "
+    "tensor, batch of 1..3 float32 images (Gaussian mixtures | sums of rectangles | white noise | 1-3 single-pixel impulses "
+    "anywhere in the disc or on its rim / next to the centre; amplitude 1e-3, 1 or 1e3; all multiplied by the scikit-image "
+    "disc mask), plus a partner image and two coefficients for linearity.  iradon (Hypothesis): same N/angles/batch, filter in "
+    "the six names, circle True (4 in 5) or False, float32 sinograms (white noise | scikit-image radon of a generated image | "
+    "1-3 impulses incl. first/last/centre detector bins | all ones, the SIRT normalisation input), plus a partner sinogram "
+    "and coefficients.  A radon/iradon case is NON-TRIVIAL when N is even, or some angle is not in {0,90,180}, or some "
+    "image/sinogram is not (the radon of) a smooth image; a filter case is non-trivial when the filter is not None.  "
+    "distinct = SHA-1 of the canonical JSON of the whole case.",
     [
         "references are scikit-image 0.26 radon(circle=True), iradon(interpolation='linear', preserve_range=True) and "
         "radon_transform._get_fourier_filter, run in float64 on exactly the float32 values given to the torch code and "
         "transposed to the torch (angles, pixels) layout",
         "images are zero outside the disc (scikit-image's documented precondition for circle=True); images and sinograms are "
-        "float32 (the only dtype the grid_sample pipeline accepts); theta is always passed explicitly (the differing theta=None "
-        "defaults are outside the quantified angle sets); output_size is left at its default",
-        "tolerances, K >= 10x the largest error/scale seen on the corrected tree: radon 4*eps32*N^2*max|image| (N bilinear "
-        "samples per bin, each displaced by the float32 rounding of a coordinate <= N); iradon 8*eps32*(N+8)*max|sinogram| "
-        "(float32 FFT of <= 256 points + interpolation at a float32 detector coordinate); filter 32*eps32 absolute (values "
-        "<= 1); batched vs per-image 0.5x the respective scale; linearity 2x the differential tolerance with "
-        "|a|max|x|+|b|max|y| as magnitude",
+        "float32 (the only dtype the grid_sample pipeline accepts); theta is always passed explicitly (the theta=None defaults "
+        "are outside the quantified angle sets); output_size is left at its default; square images only",
+        "tolerance = K * scale with scale an error model of the float32 pipeline: radon eps32*N^2*max|image| (N bilinear "
+        "samples per bin, each displaced by the float32 rounding of a coordinate <= N), K=8; iradon eps32*(N+8)*max|sinogram| "
+        "(float32 FFT of <= 256 points + interpolation at a float32 detector coordinate), K=32; filter eps32 absolute (values "
+        "<= 1), K=32; batched vs per-image K=2 on the same scale (measured bitwise equal); linearity 2K with |a|max|x|+|b|max|y| "
+        "as magnitude.  Largest error/scale measured on the corrected tree (8 x 30 000 targeted cases): radon 0.65, theta=0 "
+        "0.40, iradon 1.95, filter 2.23, linearity 0.39 -> >= 12x head-room; each run's largest ratios are in coverage.extra",
         "reconstruction pixels whose detector coordinate comes within 1e-3 of an end of the reference's detector for some "
         "angle are not compared (np.interp jumps to 0 there, float32 and float64 may round to different sides); they are "
-        "counted in classes['iradon:pixels_at_detector_end_not_compared'] and occur only for circle=False and N=4",
+        "counted in classes['iradon:pixels_at_detector_end_not_compared'] and occur only for circle=False and for N=4",
     ],
     workers=(1, 16),
     technique="property-based testing (Hypothesis, targeted on error/tolerance): differential against scikit-image "
-    "radon/iradon/_get_fourier_filter in float64 + metamorphic relations (batch == per-image, linearity, theta=0 == column sums)",
+    "radon/iradon/_get_fourier_filter in float64 + metamorphic relations (batch == per-image, linearity, theta=0 == column "
+    "sums); the finite filter sub-domain is enumerated",
     text="Generated-input search: every case runs the torch function on a batch, on each element alone, on a linear combination "
-    "and at theta=0, and judges all outputs against scikit-image evaluated in float64 on the same inputs.  Exploration only: "
-    "no absence claim.",
-    note="Trusts scikit-image 0.26 as the meaning of 'the functions they port'; non-square images, float64 images, "
-    "output_size != default and the theta=None defaults are not explored.",
+    "and (radon) at theta=0, and judges all outputs against scikit-image evaluated in float64 on the same inputs.  Exploration "
+    "only: no absence claim beyond the enumerated filter table.",
+    note="Trusts scikit-image 0.26 as the meaning of 'the functions they port'.  Non-square images, float64 images, "
+    "output_size != default and the theta=None defaults (iradon_torch's linspace includes 180, scikit-image's does not) are "
+    "not explored.",
     design="DESIGN.md §3 C07",
 )
